@@ -85,6 +85,7 @@ const (
 const (
 	queueReasonLoading uint8 = 1 << iota
 	queueReasonReaccess
+	queueReasonReference
 )
 
 const (
@@ -494,7 +495,7 @@ func (s *Subscription) collectRefs(rcb *readyCallback) {
 		// or references already included in the refMap.
 		// A ready reference queueing events, as one of its events awaits a new
 		// reference being loaded, is not to be considered ready.
-		if (ref.sub.IsReady() && ref.sub.queueFlag&queueReasonLoading == 0) || rcb.refMap[ref.sub] {
+		if (ref.sub.IsReady() && ref.sub.queueFlag&queueReasonReference == 0) || rcb.refMap[ref.sub] {
 			continue
 		}
 
@@ -639,7 +640,7 @@ func (s *Subscription) processCollectionEvent(event *rescache.ResourceEvent) {
 			}
 
 			// Start queueing again
-			s.queueEvents(queueReasonLoading)
+			s.queueEvents(queueReasonReference)
 
 			sub.OnReady(func() {
 				// Assert client is still subscribing
@@ -653,7 +654,7 @@ func (s *Subscription) processCollectionEvent(event *rescache.ResourceEvent) {
 				s.c.Send(rpc.NewEvent(s.rid, event.Event, rpc.AddEvent{Idx: idx, Value: v.RawMessage, Resources: r}))
 				sub.ReleaseRPCResources()
 
-				s.unqueueEvents(queueReasonLoading)
+				s.unqueueEvents(queueReasonReference)
 			})
 		case codec.ValueTypeData:
 			fallthrough
@@ -739,7 +740,7 @@ func (s *Subscription) processModelEvent(event *rescache.ResourceEvent) {
 		}
 
 		// Start queueing again
-		s.queueEvents(queueReasonLoading)
+		s.queueEvents(queueReasonReference)
 		count := len(subs)
 		for _, sub := range subs {
 			sub.OnReady(func() {
@@ -773,7 +774,7 @@ func (s *Subscription) processModelEvent(event *rescache.ResourceEvent) {
 					sub.ReleaseRPCResources()
 				}
 
-				s.unqueueEvents(queueReasonLoading)
+				s.unqueueEvents(queueReasonReference)
 			})
 		}
 	case "delete":
